@@ -287,6 +287,10 @@ static Gen<A> body(CtxBase *c, const long *s, int n) {
 }
 
 
+// called from inside a consumer awaiter's resume function, i.e. while the yielding thread is still inside the
+// notification (yield_suspend::await_suspend -> caller->resume()); the two-thread harness makes it a scheduling point
+inline void (*g_notify_hook)() = nullptr;
+
 // ---- the consumer: one generator object read in freely mixed styles ----
 template <bool A>
 struct Ctx : CtxBase {
@@ -387,6 +391,7 @@ struct Ctx : CtxBase {
         CountAwt() {
             set_resume_fn([](awaiter *me, void *) noexcept -> suspend_point<void> {
                 static_cast<CountAwt *>(me)->count++;
+                if (g_notify_hook) g_notify_hook();
                 return {};
             });
         }
@@ -430,6 +435,73 @@ struct Ctx : CtxBase {
             r.kind = K_ENDT;
             deliver(r);
         }
+    }
+
+    // style 8: a plain awaiter that RE-ARMS from inside its resume function: when it is notified it reads the answer
+    // and, if that was a value, immediately subscribes for the next one (argument = previous + 1), re-entrantly, while
+    // the yielding code is still inside the notification.  One op consumes the whole sequence; one line per answer.
+    struct RearmAwt : awaiter {
+        Ctx *c = nullptr;
+        long count = 0;
+        RearmAwt() {
+            set_resume_fn([](awaiter *me, void *) noexcept -> suspend_point<void> {
+                auto self = static_cast<RearmAwt *>(me);
+                self->count++;
+                if (g_notify_hook) g_notify_hook();
+                self->c->chain_notified();
+                return {};
+            });
+        }
+    };
+    RearmAwt rawt;
+    std::vector<std::unique_ptr<typename Gen<A>::next_awt>> chain_next;   // kept alive: their subscribe() may still be on a stack
+    std::function<void(Result)> line_out;
+    bool chain_done = true;
+    int chain_arg = 0;
+
+    void chain_finish(Result r) {
+        chain_done = true;
+        line_out(r);
+    }
+    void chain_step() {
+        argv = chain_arg++;
+        rawt.count = 0;
+        try {
+            chain_next.emplace_back(new typename Gen<A>::next_awt(do_next()));
+            auto &n = *chain_next.back();
+            if (n.await_ready()) {
+                Result r;
+                bool b = n.await_resume();
+                if (b) r = read_value();
+                else r.kind = K_ENDF;
+                chain_finish(r);
+                return;
+            }
+            n.subscribe(&rawt);     // the body runs; chain_notified() may be called before this returns
+        } catch (const no_more_values_exception &) {
+            Result r;
+            r.kind = K_ENDT;
+            chain_finish(r);
+        }
+    }
+    void chain_notified() {
+        Result r;
+        bool b = chain_next.back()->await_resume();
+        if (b) r = read_value();
+        else r.kind = K_ENDF;
+        cnt_report = rawt.count;
+        if (r.kind == K_VAL) {
+            line_out(r);
+            chain_step();
+        } else {
+            chain_finish(r);
+        }
+    }
+    void chain_start(int arg) {
+        rawt.c = this;
+        chain_done = false;
+        chain_arg = arg;
+        chain_step();
     }
 
     task async_access(int style) {
